@@ -45,8 +45,11 @@ def make_conn_class():
             self.silence_none = False  # a transport that reports silence by returning None (its documented 'bytes or None') instead of raising
 
         def open(self):
-            self.opened = True
             self.open_calls += 1
+            if getattr(self, 'open_fault', False):
+                self.open_fault = False
+                raise OSError('interface is down')     # the transport cannot be opened this time
+            self.opened = True
             return self
 
         def close(self):
@@ -165,6 +168,17 @@ def make_algo(kind, conn):
         def algo(seed, params):
             conn.log.append([5, -1, -1 if params is None else params] + enc_bytes(seed))
             raise AlgoFailure('this tool holds no secret for that unit')      # the application's own error, raised inside the algorithm
+        return algo
+    if kind == 8:
+        import functools
+
+        def routine(level, seed, params):       # what the application wraps: another signature
+            raise AssertionError('the wrapped routine is called by the adapter only')
+
+        @functools.wraps(routine)
+        def algo(seed, params):                 # the configured callable: an adapter with the documented (seed, params) signature
+            conn.log.append([5, -1, -1 if params is None else params] + enc_bytes(seed))
+            return bytes(reversed(seed)) + bytes([(params or 0) & 0xFF])
         return algo
     if kind >= 4:
         return Algo4(conn)
@@ -326,7 +340,41 @@ def make_client(cfgv, extra_cfg=None):
     if extra_cfg:
         cfg.update(extra_cfg)
     client = uc.Client(conn, config=cfg)
+    client._verif_cfg_dict = cfg
     return client, conn, clk
+
+
+def second_client(client, clk):
+    """another Client in the same process, built by the application from the SAME configuration dictionary, on its own connection,
+    reconfigured and left inside a suppress block and a payload override; the dictionary itself is edited afterwards as well.  A client
+    owns its configuration and its state: nothing of this may change what the first client does."""
+    import udsoncan.client as uc
+    cfg = client._verif_cfg_dict
+    saved = (clk.us, clk.reads)      # what the second client does happened before the history starts
+    conn2 = _Conn(clk)
+    c2 = uc.Client(conn2, config=cfg)
+    conn2.sched = [(clk.us + 1, bytes([0x50, 3, 0x00, 0x01, 0x00, 0x01]))]
+    try:
+        c2.change_session(3)
+    except Exception:
+        pass
+    mine = client.config['standard_version']
+    for key, val in (('standard_version', 2006 if mine != 2006 else 2020), ('exception_on_negative_response', not client.config['exception_on_negative_response']),
+                     ('exception_on_invalid_response', not client.config['exception_on_invalid_response']),
+                     ('exception_on_unexpected_response', not client.config['exception_on_unexpected_response']),
+                     ('tolerate_zero_padding', not client.config['tolerate_zero_padding']), ('ignore_all_zero_dtc', not client.config['ignore_all_zero_dtc']),
+                     ('use_server_timing', not client.config['use_server_timing']), ('request_timeout', 0.125), ('p2_timeout', 0.0625), ('p2_star_timeout', 0.25),
+                     ('server_address_format', 8), ('server_memorysize_format', 8), ('dtc_snapshot_did_size', 1), ('extended_data_size', 1)):
+        try:
+            c2.set_config(key, val)
+        except Exception:
+            pass
+    for key, val in (('standard_version', 2013 if mine != 2013 else 2020), ('request_timeout', 0.375), ('security_algo_params', 0x77)):
+        cfg[key] = val            # the application edits its own dictionary after having built its clients from it
+    c2.suppress_positive_response(wait_nrc=True).__enter__()
+    c2.payload_override(b'\x99\x99').__enter__()
+    clk.us, clk.reads = saved
+    return c2
 
 
 def enc_resp_obs(r):
@@ -451,6 +499,7 @@ def run_history_case(c, extra_cfg=None):
     client._verif_wrappers = wrappers.marked(c)      # half of the cases go through the convenience methods where one fits
     conn.silence_none = wrappers.marked(c, 1)        # half of the cases (independently) run on a transport that returns None on silence
     client._verif_objects = wrappers.marked(c, 2)    # half of the cases hand helper objects (Dtc, Dtc.Status, Dtc.DtcClass) where an integer is also allowed
+    other = second_client(client, clk) if wrappers.marked(c, 3) else None    # half of the cases run next to a second, differently configured client
     client._verif_reuse_objects = client._verif_reuse_memloc = ' / repeated' in c.tag     # the application keeps its argument objects
     pos = 1 + L
     nops = a[pos]
